@@ -1,10 +1,12 @@
 """C07 — references resolve to the right object, on load and on save.
 
 Proof: Pyc/Props/C07.lean (retry loop: retry_sound, retry_stuck, loaded_iff_loadable, retry_perm, self/mutual reference; lookup:
-same_object, resolved_is_the_carrier, dangling_is_error, written_refs_resolve; deps_precede over the load-order table that
+same_object, resolved_is_the_carrier, dangling_is_error, written_refs_resolve; made-up samplers for textures naming an image:
+direct_one_sampler_per_image, direct_sampler_is_the_param, direct_every_property_mapped, negative direct_throwaway_breaks; deps_precede over the load-order table that
 translators/load_order.py regenerates from the AST on every run).
 Correspondence: random instance_node graphs (forward, repeated, chained, cyclic, self, dangling) in <library_nodes> and among the
-roots of a <visual_scene>: which nodes the real loader loads, in which order, how many broken-reference errors vs Pyc.Refs.loadNodes.
+roots of a <visual_scene>: which nodes the real loader loads, in which order, how many broken-reference errors vs Pyc.Refs.loadNodes;
+effects whose textures name images directly: parameter list and sampler positions vs Pyc.DirectTex.run.
 Direct oracle: identity of every resolved reference with the library object carrying the id; permutation of top-level libraries and of
 node definition order; each kind of dangling reference strictly raises DaeBrokenRefError and is never bound when ignored; after
 renaming every referenced object the written references resolve (independent reader).
@@ -19,7 +21,7 @@ from vlib import core, snap, docgen, modelgen, editgen, xmlread
 
 PID = 'C07'
 TRANSLATORS = ['load_order']
-LEAN_MODULES = ['Pyc.Model.Refs']
+LEAN_MODULES = ['Pyc.Model.Refs', 'Pyc.Model.DirectTex']
 META = dict(
     level_text=('Proof: Pyc/Props/C07.lean proves for the instance_node retry loop, for every list of node definitions and every reference graph, that each loaded '
                 'node had all its targets loaded before it, that the loop ends with exactly the ids that are loadable at all (a finite reference chain: '
@@ -502,6 +504,26 @@ def check_direct(images, effects):
     return look(d2, 'after write and reload')
 
 
+def direct_observe(images, effects):
+    """what the real loader built, in the words of drv/C07.lean `direct`: the effect's parameters in order and, per property naming an
+    image, the position of its map's sampler among them (by object identity)"""
+    import collada
+    from collada import material
+    d = collada.Collada(io.BytesIO(direct_doc(images, effects)))
+    out = []
+    for eid, shader, props, bump in effects:
+        e = d.effects[eid]
+        ps = ','.join(('surf:' if isinstance(q, material.Surface) else 'samp:' if isinstance(q, material.Sampler2D) else 'other:') + str(q.id) for q in e.params)
+        ms = []
+        for key, kind, im in props:
+            if kind == 'tex':
+                v = getattr(e, key)
+                pos = [i for i, q in enumerate(e.params) if isinstance(v, material.Map) and q is v.sampler]
+                ms.append('%s:%s' % (key, pos[0] if pos else 'none'))
+        out.append('params=%s maps=%s' % (ps, ','.join(ms)))
+    return out
+
+
 def run(ctx):
     ctx.rule = ('instance_node graphs over 1-6 nodes (targets: any node incl. itself, missing ids; nested or direct; in <library_nodes> or as visual_scene roots; '
                 'definition order shuffled); docgen documents with permuted libraries / node definitions; nine kinds of dangling reference; renames of every referenced '
@@ -607,6 +629,7 @@ def run(ctx):
         ctx.case(dict(kind='skin', seed=seed))
         ctx.count('controller-references')
         report(res, dict(kind='skin', seed=seed))
+    dlines, dactual = [], []
     for i in range(ctx.n(150, 5000)):
         images, effects = direct_case(ctx.rng)
         shared = any(len([1 for _, k, im in props if k == 'tex']) > len(set(im for _, k, im in props if k == 'tex')) for _, _, props, _ in effects)
@@ -617,6 +640,19 @@ def run(ctx):
         except Exception as e:
             res = ('direct:check-raised:' + type(e).__name__, 'checking image-named textures raised %s: %s' % (type(e).__name__, str(e)[:150]))
         report(res, dict(kind='direct', images=images, effects=effects))
+        if res is None:
+            try:
+                obs = direct_observe(images, effects)
+            except Exception as e:
+                obs = ['raised:' + type(e).__name__] * len(effects)
+            for (eid, shader, props, bump), o in zip(effects, obs):
+                dlines.append('direct ' + ' '.join('%s:%s' % (k, im) for k, kind, im in props if kind == 'tex'))
+                dactual.append((o, dict(kind='direct', images=images, effects=effects)))
+    if ctx.lean_ok and dlines:
+        for l, (a, rep), m in zip(dlines, dactual, ctx.driver('C07', dlines)):
+            if a != m and 'corr:direct' not in reported:
+                reported.add('corr:direct')
+                ctx.violation('corr:direct', 'textures naming an image: the loader built %r, Pyc.DirectTex.run gives %r for %r' % (a, m, l), rep, found_input=False)
     for i in range(ctx.n(40, 1500)):
         seed = ctx.rng.randrange(10 ** 9)
         ctx.case(dict(kind='rename', seed=seed))
